@@ -377,7 +377,34 @@ func (ms *MultiplexerSignal) InsertSignal(signal Signal, startBit int, groupIDs 
 		return ms.errorf(insErr)
 	}
 
+	sigID := signal.EntityID()
+	isPresent := ms.signals.hasKey(sigID)
+	isFixed := ms.fixedSignals.hasKey(sigID)
+
+	prevGroupIDs := []int{}
+	if ms.signalGroupIDs.hasKey(sigID) {
+		tmpIDs, err := ms.signalGroupIDs.getValue(sigID)
+		if err != nil {
+			panic(err)
+		}
+		prevGroupIDs = tmpIDs
+	}
+
 	if len(groupIDs) == 0 {
+		// a signal already held by some groups cannot become a fixed one
+		if isPresent {
+			dupGroupID := 0
+			if len(prevGroupIDs) > 0 {
+				dupGroupID = prevGroupIDs[0]
+			}
+
+			insErr.Err = &GroupIDError{
+				GroupID: dupGroupID,
+				Err:     ErrIsDuplicated,
+			}
+			return ms.errorf(insErr)
+		}
+
 		for i := 0; i < ms.groupCount; i++ {
 			if err := ms.groups[i].verifyBeforeInsert(signal, startBit); err != nil {
 				insErr.Err = err
@@ -389,19 +416,20 @@ func (ms *MultiplexerSignal) InsertSignal(signal Signal, startBit int, groupIDs 
 			ms.groups[i].insert(signal, startBit)
 		}
 
-		ms.fixedSignals.add(signal.EntityID(), true)
+		ms.fixedSignals.add(sigID, true)
 
 	} else {
-		groupIDs = slices.Compact(groupIDs)
-
-		prevGroupIDs := []int{}
-		if ms.signalGroupIDs.hasKey(signal.EntityID()) {
-			tmpIDs, err := ms.signalGroupIDs.getValue(signal.EntityID())
-			if err != nil {
-				panic(err)
+		// remove the duplicated group ids, also the non-adjacent ones
+		uniqueGroupIDs := make([]int, 0, len(groupIDs))
+		seenGroupIDs := make(map[int]struct{}, len(groupIDs))
+		for _, groupID := range groupIDs {
+			if _, ok := seenGroupIDs[groupID]; ok {
+				continue
 			}
-			prevGroupIDs = tmpIDs
+			seenGroupIDs[groupID] = struct{}{}
+			uniqueGroupIDs = append(uniqueGroupIDs, groupID)
 		}
+		groupIDs = uniqueGroupIDs
 
 		for _, groupID := range groupIDs {
 			if err := ms.verifyGroupID(groupID); err != nil {
@@ -409,10 +437,20 @@ func (ms *MultiplexerSignal) InsertSignal(signal Signal, startBit int, groupIDs 
 				return ms.errorf(insErr)
 			}
 
-			if slices.Contains(prevGroupIDs, groupID) {
+			// a fixed signal is already held by every group
+			if isFixed || slices.Contains(prevGroupIDs, groupID) {
 				insErr.Err = &GroupIDError{
 					GroupID: groupID,
 					Err:     ErrIsDuplicated,
+				}
+				return ms.errorf(insErr)
+			}
+
+			// the start bit is shared by all the groups that hold the signal
+			if isPresent && startBit != signal.GetRelativeStartPos() {
+				insErr.Err = &StartBitError{
+					StartBit: startBit,
+					Err:      ErrIsDuplicated,
 				}
 				return ms.errorf(insErr)
 			}
@@ -430,7 +468,7 @@ func (ms *MultiplexerSignal) InsertSignal(signal Signal, startBit int, groupIDs 
 		groupIDs = slices.Concat(prevGroupIDs, groupIDs)
 		slices.Sort(groupIDs)
 
-		ms.signalGroupIDs.add(signal.EntityID(), groupIDs)
+		ms.signalGroupIDs.add(sigID, groupIDs)
 	}
 
 	ms.addSignal(signal)
